@@ -244,3 +244,44 @@ def r10f(ctx: Ctx) -> list[Ob]:
 
 def run(ctx: Ctx) -> list[Ob]:
     return r10a(ctx) + r10b(ctx) + r10c(ctx) + r10d(ctx) + r10e(ctx) + r10f(ctx)
+
+
+# ------------------------------------------------------------------------------- R10g: evaluation purity
+EVAL_METHODS = ("forward", "__call__", "evaluate", "log_partition_function", "log_unnormalized_likelihood", "integrate", "sample", "extended_forward")
+
+
+def r10g(ctx: Ctx, only: tuple[str, ...] | None = None) -> list[Ob]:
+    """R10g: evaluating a torch-side module is a function of its *current* parameters: no evaluation
+    method (forward, __call__, evaluate, log_partition_function, integrate, sample, ...) of a layer,
+    parameter node, parameter graph or circuit stores anything on ``self``.  A value memoised during
+    evaluation survives in-place updates, re-initialisations and ``load_state_dict`` of the
+    parameters it was computed from (derived circuits read the operand's tensors by reference)."""
+    obs: list[Ob] = []
+    for c in _module_classes(ctx):
+        if only is not None and not any(o in c.qualname for o in only):
+            continue
+        for mname in EVAL_METHODS:
+            m = c.methods.get(mname)
+            if m is None or m.is_abstract:
+                continue
+            writes = []
+            for n in walk_no_nested(m.node):
+                targets: list[ast.AST] = []
+                if isinstance(n, ast.Assign):
+                    targets = list(n.targets)
+                elif isinstance(n, (ast.AnnAssign, ast.AugAssign)):
+                    targets = [n.target]
+                for t in targets:
+                    for x in ast.walk(t):
+                        a = is_self_attr(x)
+                        if a:
+                            writes.append((a, n.lineno))
+                if isinstance(n, ast.Call) and isinstance(n.func, ast.Name) and n.func.id == "setattr" and n.args and isinstance(n.args[0], ast.Name) and n.args[0].id == "self":
+                    writes.append(("setattr", n.lineno))
+            inst = f"pure:{mname}"
+            if writes:
+                a, ln = writes[0]
+                obs.append(viol("R10g", c.qualname, inst, f"{c.name}.{mname} stores self.{a} while evaluating: the stored value outlives in-place updates / re-initialisation / load_state_dict of the parameters it was computed from", f"{m.module.relpath}:{ln}"))
+            else:
+                obs.append(ok("R10g", c.qualname, inst, "no state written during evaluation", m.loc, nontrivial=False))
+    return obs
